@@ -13,6 +13,11 @@
 //	                                        nil keyset ("ks"), nil key ("k<i>"), nil key data ("d<i>")
 //	E|<kek>|<ad>|<hex>|<label>              EncryptedKeyset through keyset.ReadWithAssociatedData with
 //	                                        an AES-GCM (no prefix) key-encryption key
+//	F|<kek>|<ad>|<json hex>|<canon or X>|<label>  the same with the JSON text of an EncryptedKeyset and
+//	                                        keyset.NewJSONReader (canon: what protojson yields, gen_json.go)
+//
+// J and F: the model parses the TEXT itself (coq/model/JsonKeyset.v); the bin / canon field is what
+// protojson.Unmarshal made of it and is only compared with the model's own parse (a cross-check).
 //
 //	P|<KeyTemplate hex>|<label>             protoserialization.ParseParameters on the decoded template (params.go)
 //
@@ -378,6 +383,24 @@ func execute(in string) *run {
 		add("c", h, err)
 		h, err = keyset.ReadWithNoSecrets(keyset.NewJSONReader(bytes.NewReader(data)))
 		add("n", h, err)
+	case "F":
+		kek, ad, data := hx.UH(f[1]), hx.UH(f[2]), hx.UH(f[3])
+		enc := &tinkpb.EncryptedKeyset{}
+		if (protojson.UnmarshalOptions{}).Unmarshal(data, enc) == nil {
+			if pt, ok := stdlibOpen(kek, enc.GetEncryptedKeyset(), ad); ok {
+				ks := &tinkpb.Keyset{}
+				if proto.Unmarshal(pt, ks) == nil {
+					r.ks, r.decoded = ks, true
+				}
+			}
+		}
+		a, err := kekAEAD(kek)
+		if err != nil {
+			add("e", nil, err)
+			return r
+		}
+		h, err := keyset.ReadWithAssociatedData(keyset.NewJSONReader(bytes.NewReader(data)), a, ad)
+		add("e", h, err)
 	case "M":
 		data := hx.UH(f[1])
 		ks := &tinkpb.Keyset{}
@@ -1038,6 +1061,15 @@ func c14Check(in, obs string) string {
 		return checkParams(strings.Split(in, "|")[1])
 	}
 	r := execute(in)
+	if f := strings.Split(in, "|"); (f[0] == "J" || f[0] == "F") && strings.Contains(f[len(f)-1], ":R~") {
+		// JSON text that protojson must refuse by construction (unknown / duplicate field, wrong JSON type,
+		// uint32 out of range, unknown enum name, bad base64 character, syntax): no reader may return a handle
+		for i, h := range r.handles {
+			if r.errs[i] == nil && h != nil {
+				return fmt.Sprintf("path %s: a handle was returned for a JSON text that must be refused (%s)", r.paths[i], f[len(f)-1])
+			}
+		}
+	}
 	must := "undecodable input"
 	if r.decoded {
 		must = mustReject(r.ks)
@@ -1109,6 +1141,9 @@ func c14Check(in, obs string) string {
 func c14Class(in, obs string) string {
 	f := strings.Split(in, "|")
 	label := f[len(f)-1]
+	if i := strings.Index(label, "~"); i > 0 && strings.HasPrefix(label, "jt-") {
+		label = label[:i] // JSON text layer: one class per (kind, family, outcome)
+	}
 	o := "err"
 	switch {
 	case obs == "U":
